@@ -205,7 +205,15 @@ def build_order_cases(rng, count, next_id):
         add_genes = [{"op": "AddGene", "arg": i + 1} for i in range(len(genes))]
         rng.shuffle(add_genes)
         pick = rng.random()
-        if pick < 0.6:
+        if pick < 0.25 and len(areas) >= 2:
+            # some areas join only after the regions exist (they stay outside any region), then the genes arrive
+            adds = build[:len(areas)]
+            tail = build[len(areas):]
+            cut = rng.randrange(1, len(adds))
+            hist, log_from = adds[:cut] + [t for t in tail if t["op"] != "CreateCandidates" or any(
+                a["op"] == "AddProto" for a in adds[:cut])] + adds[cut:] + add_genes, 0
+            hist = [c for c in hist if c["op"] != "CreateCandidates" or any(x["op"] == "AddProto" for x in hist[:hist.index(c)])]
+        elif pick < 0.6:
             hist, log_from = build + add_genes, len(build) - 1
         elif pick < 0.8:
             hist, log_from = add_genes + build, len(add_genes) + len(build) - 1
